@@ -721,3 +721,223 @@ func checkStrSeq(c StrSeqCase, cv *cov) *evid.Violation {
 }
 
 func init() { register("c13_string_sequence", checkStrSeq) }
+
+// TestC13_Wide: containers whose element count crosses 2^14, 2^15 and 2^16 (index arithmetic in 16 bits).
+func TestC13_Wide(t *testing.T) {
+	rec := evid.New("C13", "c13_wide", "enumeration: one field holding a list, set or map with n in {16383..16386, 32767..32769, 65535..65537 (lists and sets), 40000} small elements (bool, i16, i32 keys; bool, byte, short string values), alone and as the second field behind a scalar; full C13 oracle (bytes -> tree -> bytes, tree -> bytes -> tree); distinct by construction")
+	defer rec.Flush()
+	b := evid.NewBatch()
+	counts := []int{16383, 16384, 16385, 16386, 32767, 32768, 32769, 40000, 65535, 65536, 65537}
+	mk := func(t int8, i int) ref.Value {
+		switch t {
+		case ref.STRING:
+			return ref.Value{T: t, Str: []byte{byte('a' + i%26)}}
+		case ref.BOOL:
+			return ref.Value{T: t, Bits: uint64(i & 1)}
+		}
+		return ref.Value{T: t, Bits: uint64(i) & (1<<uint(8*ref.FixedSize(t)) - 1)}
+	}
+	for _, n := range counts {
+		for _, kind := range []int8{ref.LIST, ref.SET, ref.MAP} {
+			if kind == ref.MAP && n > 40000 {
+				continue
+			}
+			for variant := 0; variant < 2; variant++ {
+				v := ref.Value{T: kind}
+				if kind == ref.MAP {
+					v.KT = []int8{ref.I16, ref.I32}[variant]
+					v.ET = []int8{ref.BOOL, ref.STRING}[variant]
+					for i := 0; i < n; i++ {
+						v.Elems = append(v.Elems, mk(v.KT, i), mk(v.ET, i+1))
+					}
+				} else {
+					v.ET = []int8{ref.BYTE, ref.I16}[variant]
+					for i := 0; i < n; i++ {
+						v.Elems = append(v.Elems, mk(v.ET, i))
+					}
+				}
+				var data []byte
+				if variant == 1 {
+					data = append(data, byte(ref.I32), 0, 1, 0, 0, 0, 7)
+				}
+				data = append(data, byte(kind), 0, 9)
+				data = ref.Append(data, &v, nil)
+				c := UFCase{Data: data}
+				var cv cov
+				viol := checkUnknownFields(c, &cv)
+				b.Evals++
+				b.Distinct++
+				b.Nontrivial++
+				if viol != nil {
+					if len(viol.Msg) > 1500 {
+						viol.Msg = viol.Msg[:1500]
+					}
+					failEnum(t, rec, "c13_wide", WideUFCase{Kind: kind, N: n, Variant: variant}, viol)
+					rec.Merge(b)
+					return
+				}
+			}
+		}
+	}
+	rec.Merge(b)
+	rec.Sample(WideUFCase{Kind: ref.MAP, N: 16385, Variant: 0})
+	rec.SetExhaustive()
+}
+
+// WideUFCase is the compact replayable form of a c13_wide case.
+type WideUFCase struct {
+	Kind    int8 `json:"kind"`
+	N       int  `json:"n"`
+	Variant int  `json:"variant"`
+}
+
+func init() {
+	register("c13_wide", func(c WideUFCase, cv *cov) *evid.Violation {
+		if c.N < 0 || c.N > 70000 || (c.Kind != ref.LIST && c.Kind != ref.SET && c.Kind != ref.MAP) {
+			return nil
+		}
+		v := ref.Value{T: c.Kind, ET: ref.BYTE}
+		if c.Kind == ref.MAP {
+			v.KT, v.ET = ref.I16, ref.BOOL
+			for i := 0; i < c.N; i++ {
+				v.Elems = append(v.Elems, ref.Value{T: ref.I16, Bits: uint64(i) & 0xffff}, ref.Value{T: ref.BOOL, Bits: uint64(i & 1)})
+			}
+		} else {
+			for i := 0; i < c.N; i++ {
+				v.Elems = append(v.Elems, ref.Value{T: ref.BYTE, Bits: uint64(i) & 0xff})
+			}
+		}
+		data := ref.Append([]byte{byte(c.Kind), 0, 9}, &v, nil)
+		return checkUnknownFields(UFCase{Data: data}, cv)
+	})
+}
+
+// ---- GetUnknownFields: the same conversion, reached through a struct that carries the bytes ----------------
+
+type ufFirst struct {
+	_unknownFields []byte
+	Extra          []byte
+	N              int
+}
+
+type ufLast struct {
+	N              int
+	Extra          []byte
+	Name           string
+	_unknownFields []byte
+}
+
+type ufInner struct {
+	Pad            [3]int64
+	_unknownFields []byte
+}
+
+// ufOuter embeds the holder behind other fields: the promoted field lies at a non-zero offset of the
+// outer struct and at another offset inside the embedded one.
+type ufOuter struct {
+	Extra []byte
+	Tag   string
+	ufInner
+}
+
+type ufOuterFirst struct {
+	ufInner
+	Extra []byte
+}
+
+// two distinct types with the same package path and name, the field at different positions
+func ufSameNameA(extra, unk []byte) interface{} {
+	type Req struct {
+		_unknownFields []byte
+		Extra          []byte
+	}
+	return &Req{_unknownFields: unk, Extra: extra}
+}
+
+func ufSameNameB(extra, unk []byte) interface{} {
+	type Req struct {
+		Extra          []byte
+		_unknownFields []byte
+	}
+	return &Req{Extra: extra, _unknownFields: unk}
+}
+
+// GetUFCase: the bytes and the order in which the holder shapes are used.
+type GetUFCase struct {
+	Data  evid.Hex `json:"data"`
+	Order []int    `json:"order"`
+}
+
+func checkGetUnknownFields(c GetUFCase, cv *cov) (v *evid.Violation) {
+	data := []byte(c.Data)
+	fields, ok := parseFieldSeq(data)
+	if !ok || len(c.Order) == 0 || len(c.Order) > 40 {
+		return nil
+	}
+	for i := range fields {
+		if !canonicalBools(&fields[i].V) {
+			return nil // a non-canonical boolean byte is not reproduced when writing back (C13's statement)
+		}
+	}
+	// a decoy: other well-formed unknown-field bytes that sit in the neighbouring []byte field
+	decoy := []byte{byte(ref.I64), 0x7f, 0x01, 1, 2, 3, 4, 5, 6, 7, 8}
+	shapes := []struct {
+		name string
+		mk   func() interface{}
+	}{
+		{"struct value, field first", func() interface{} { return ufFirst{_unknownFields: data, Extra: decoy} }},
+		{"pointer, field first", func() interface{} { return &ufFirst{_unknownFields: data, Extra: decoy} }},
+		{"struct value, field last", func() interface{} { return ufLast{_unknownFields: data, Extra: decoy, Name: "n"} }},
+		{"pointer, field last", func() interface{} { return &ufLast{_unknownFields: data, Extra: decoy, Name: "n"} }},
+		{"pointer, holder embedded behind other fields", func() interface{} { return &ufOuter{Extra: decoy, Tag: "t", ufInner: ufInner{_unknownFields: data}} }},
+		{"struct value, holder embedded behind other fields", func() interface{} { return ufOuter{Extra: decoy, Tag: "t", ufInner: ufInner{_unknownFields: data}} }},
+		{"pointer, holder embedded first", func() interface{} { return &ufOuterFirst{Extra: decoy, ufInner: ufInner{_unknownFields: data}} }},
+		{"pointer to a function-local type named Req (field first)", func() interface{} { return ufSameNameA(decoy, data) }},
+		{"pointer to another function-local type named Req (field second)", func() interface{} { return ufSameNameB(decoy, data) }},
+	}
+	want, werr := uf.ConvertUnknownFields(append([]byte(nil), data...))
+	if werr != nil {
+		return nil // C13's main check reports that
+	}
+	wl, _ := uf.UnknownFieldsLength(want)
+	body := func() {
+		for step, si := range c.Order {
+			sh := shapes[((si%len(shapes))+len(shapes))%len(shapes)]
+			got, err := uf.GetUnknownFields(sh.mk())
+			if err != nil {
+				v = evid.Failf("step %d: GetUnknownFields(%s) failed on bytes that ConvertUnknownFields accepts: %v", step, sh.name, err)
+				return
+			}
+			l, err := uf.UnknownFieldsLength(got)
+			if err != nil || l != wl || len(got) != len(want) {
+				v = evid.Failf("step %d: GetUnknownFields(%s) returned %d fields of %d bytes (err=%v), ConvertUnknownFields of the same bytes gives %d fields of %d bytes", step, sh.name, len(got), l, err, len(want), wl)
+				return
+			}
+			out := make([]byte, l)
+			if _, err := uf.WriteUnknownFields(out, got); err != nil || !bytes.Equal(out, data) {
+				v = evid.Failf("step %d: the tree from GetUnknownFields(%s) does not write back to the bytes stored in the struct (first difference at %d)", step, sh.name, firstDiff(out, data))
+				return
+			}
+		}
+	}
+	if p, st := evid.Safe(body); p != nil {
+		return &evid.Violation{Msg: fmt.Sprintf("GetUnknownFields panicked: %v", p), Stack: st}
+	}
+	cv.nontrivial = len(c.Order) >= 2
+	cv.key = append(append([]byte(nil), data...), byte(len(c.Order)))
+	return v
+}
+
+func init() { register("c13_get_unknown_fields", checkGetUnknownFields) }
+
+func TestC13_GetUnknownFields(t *testing.T) {
+	rec := evid.New("C13", "c13_get_unknown_fields", "rapid: well-formed field sequences (canonical booleans, so that writing back reproduces the bytes) stored in the _unknownFields field of 9 holder shapes (value/pointer, field first/last, holder embedded first / behind other fields, two distinct function-local types with the same name and the field at different positions; a neighbouring []byte field holds other well-formed bytes), used in a generated order of 1..12 steps; GetUnknownFields must give a tree that writes back to exactly the stored bytes and has the length ConvertUnknownFields gives; non-trivial = >= 2 steps")
+	defer rec.Flush()
+	runRapid(t, rec, "c13_get_unknown_fields", evid.Pick(4000, 40000), func(t *rapid.T) GetUFCase {
+		u := genUFCase(t)
+		if len(u.Data) > 30000 {
+			u.Data = []byte{byte(ref.I32), 0, 1, 0, 0, 0, 1}
+		}
+		return GetUFCase{Data: u.Data, Order: rapid.SliceOfN(rapid.IntRange(0, 8), 1, 12).Draw(t, "order")}
+	}, checkGetUnknownFields)
+}
